@@ -7,7 +7,8 @@ unary/binary operators (short-circuit `and`/`or`), `if`/`else`, blocks with shad
 the assignment forms, `while` with `break`/`continue`, `println` of ints and bools.
 
 Leroy style: the output is label-free.  Jumps are relative (`Target.rel k`: to `pc + 1 + k`); a
-`break`/`continue` is emitted as a jump to the placeholder `brk`/`cont` of the innermost enclosing loop and
+`break`/`continue` is emitted as `Pop` × (operands pending since the loop body began, fix 0c43abd) followed by
+a jump to the placeholder `brk`/`cont` of the innermost enclosing loop and
 `closeBody` turns the placeholders of a finished loop body into relative jumps, exactly the targets
 the real code reaches through `loop_stack` labels (`while_end` / `while_start`; the loop stack is pushed
 after the condition has been translated, so placeholders inside a condition stay open for the outer
@@ -123,8 +124,11 @@ def strictOp (op : BinOp) (ta tb : Ty) : Option (Code × Ty) :=
   | _, _, _ => none
 
 mutual
-/-- code, type and the next free slot -/
-def compE (Γ : TEnv) (next : Nat) : Expr → Option (Code × Ty × Nat)
+/-- code, type and the next free slot.  `d` = number of operands pending on the stack since the body of the
+    innermost enclosing loop began (`TranslatorState::pending_operands` minus `EnclosingLoop::pending_operands`,
+    fix 0c43abd): `translate_expr` leaves it at its value on entry plus one when the expression yields a value,
+    `translate_stmt` restores it; `break`/`continue` pop that many operands before they jump. -/
+def compE (Γ : TEnv) (next : Nat) (d : Nat) : Expr → Option (Code × Ty × Nat)
   | .int k => some ([.pushInt k], .int, next)
   | .bool b => some ([.pushBool b], .bool, next)
   | .unit => some ([], .unit, next)
@@ -134,118 +138,125 @@ def compE (Γ : TEnv) (next : Nat) : Expr → Option (Code × Ty × Nat)
     | some (s, t) => some ([.load s], t, next)
     | none => none
   | .un .neg a =>
-    match compE Γ next a with
+    -- `PushInt 0` is pending while the operand runs
+    match compE Γ next (d + 1) a with
     | some (ca, .int, n1) => some ([.pushInt 0] ++ ca ++ [.intOp .sub .top .top .top], .int, n1)
     | _ => none
   | .un .not a =>
-    match compE Γ next a with
+    match compE Γ next d a with
     | some (ca, .bool, n1) => some (ca ++ [.not .top .top], .bool, n1)
     | _ => none
   | .bin .or a b =>
-    match compE Γ next a with
+    -- the conditional jump consumes the left operand before the right one runs
+    match compE Γ next d a with
     | some (ca, .bool, n1) =>
-      match compE Γ n1 b with
+      match compE Γ n1 d b with
       | some (cb, .bool, n2) =>
         some (ca ++ [.jumpIf (.rel (cb.length + 1))] ++ cb ++ [.jump (.rel 1), .pushBool true], .bool, n2)
       | _ => none
     | _ => none
   | .bin .and a b =>
-    match compE Γ next a with
+    match compE Γ next d a with
     | some (ca, .bool, n1) =>
-      match compE Γ n1 b with
+      match compE Γ n1 d b with
       | some (cb, .bool, n2) =>
         some (ca ++ [.jumpIfFalse (.rel (cb.length + 1))] ++ cb ++ [.jump (.rel 1), .pushBool false], .bool, n2)
       | _ => none
     | _ => none
   | .bin op a b =>
-    match compE Γ next a with
+    -- the left operand (int or bool in F0: one value) is pending while the right one runs
+    match compE Γ next d a with
     | none => none
     | some (ca, ta, n1) =>
-      match compE Γ n1 b with
+      match compE Γ n1 (d + 1) b with
       | none => none
       | some (cb, tb, n2) =>
         match strictOp op ta tb with
         | some (is, t) => some (ca ++ cb ++ is, t, n2)
         | none => none
   | .ite c t f =>
-    match compE Γ next c with
+    match compE Γ next d c with
     | some (cc, .bool, n1) =>
-      match compE Γ n1 t with
+      match compE Γ n1 d t with
       | none => none
       | some (ct, tt, n2) =>
-        match compE Γ n2 f with
+        match compE Γ n2 d f with
         | none => none
         | some (cf, tf, n3) =>
           if tt = tf then
             some (cc ++ [.jumpIfFalse (.rel (ct.length + 1))] ++ ct ++ [.jump (.rel cf.length)] ++ cf, tt, n3)
           else none
     | _ => none
-  | .block ss => compSs Γ next true ss
+  | .block ss => compSs Γ next d true ss
   | .print a =>
-    match compE Γ next a with
+    match compE Γ next d a with
     | some (ca, .int, n1) => some (ca ++ [.print .int], .unit, n1)
     | some (ca, .bool, n1) => some (ca ++ [.print .bool], .unit, n1)
     | _ => none
   | _ => none
 
 /-- one statement; `isLast` = last statement of a block expression (its value is the block's) -/
-def compS (Γ : TEnv) (next : Nat) (isLast : Bool) : Stmt → Option (Code × Ty × TEnv × Nat)
+def compS (Γ : TEnv) (next : Nat) (d : Nat) (isLast : Bool) : Stmt → Option (Code × Ty × TEnv × Nat)
   | .let_ (.bind x) e =>
-    match compE Γ (next + 1) e with
+    match compE Γ (next + 1) d e with
     | some (_, .unit, _) => none          -- void bindings own no slot: outside F0
     | some (ce, t, n1) => some (ce ++ [.store next], .unit, (x, next, t) :: Γ, n1)
     | none => none
   | .assign x .set e =>
-    match Γ.find x, compE Γ next e with
+    match Γ.find x, compE Γ next d e with
     | some (s, t), some (ce, t', n1) =>
       if t = t' ∧ t ≠ .unit then some (ce ++ [.store s], .unit, Γ, n1) else none
     | _, _ => none
   | .assign x op e =>
-    match Γ.find x, asgOp op, compE Γ next e with
+    -- the loaded old value is pending while the right-hand side runs
+    match Γ.find x, asgOp op, compE Γ next (d + 1) e with
     | some (s, .int), some o, some (ce, .int, n1) =>
       some ([.load s] ++ ce ++ [.intOp o .top .top .top, .store s], .unit, Γ, n1)
     | _, _, _ => none
   | .expr e =>
-    match compE Γ next e with
+    match compE Γ next d e with
     | some (ce, t, n1) =>
       some (if !isLast && t != .unit then ce ++ [.pop] else ce, (if isLast then t else .unit), Γ, n1)
     | none => none
   | .while_ c body =>
-    match compE Γ next c with
+    -- the condition still belongs to the enclosing loop; the body starts a new count
+    match compE Γ next d c with
     | some (cc, .bool, n1) =>
-      match compSs Γ n1 false body with
+      match compSs Γ n1 0 false body with
       | some (cb, _, n2) =>
         some (cc ++ [.jumpIfFalse (.rel (cb.length + 1))] ++ closeBody (cc.length + 1) cb.length 0 cb
                 ++ [.jump (.rel (-((cc.length : Int) + 1 + cb.length + 1)))], .unit, Γ, n2)
       | none => none
     | _ => none
-  | .break_ => some ([.jump .brk], .unit, Γ, next)
-  | .continue_ => some ([.jump .cont], .unit, Γ, next)
+  -- inside an expression: drop the operands pushed since the loop body began, then jump
+  | .break_ => some (List.replicate d .pop ++ [.jump .brk], .unit, Γ, next)
+  | .continue_ => some (List.replicate d .pop ++ [.jump .cont], .unit, Γ, next)
   | _ => none
 
 /-- statement list; `blk` = block expression (the last statement is translated with `is_last`),
     otherwise a loop body (every statement with `is_last = false`).  The bindings are local. -/
-def compSs (Γ : TEnv) (next : Nat) (blk : Bool) : Stmts → Option (Code × Ty × Nat)
+def compSs (Γ : TEnv) (next : Nat) (d : Nat) (blk : Bool) : Stmts → Option (Code × Ty × Nat)
   | .nil => some ([], .unit, next)
   | .cons s .nil =>
-    match compS Γ next blk s with
+    match compS Γ next d blk s with
     | some (c, t, _, n1) => some (c, t, n1)
     | none => none
   | .cons s rest =>
-    match compS Γ next false s with
+    match compS Γ next d false s with
     | some (c, _, Γ', n1) =>
-      match compSs Γ' n1 blk rest with
+      match compSs Γ' n1 d blk rest with
       | some (cr, t, n2) => some (c ++ cr, t, n2)
       | none => none
     | none => none
 end
 
-/- `break`/`continue` only where no operand of the enclosing loop is pending (`d` = number of
-   pending operands).  This is the hypothesis under which the generated code keeps the operand stack
-   in step (D21). -/
+/- HISTORICAL (before 0c43abd): `break`/`continue` were a bare `Jump`, and the generated code kept the operand
+   stack in step only for programs where no operand of the enclosing loop is pending at a `break`/`continue`
+   (D21).  `depthSafe*` is that side condition; it is no longer a hypothesis of any theorem — it only classifies
+   generated programs in the harness statistics (`d` = number of pending operands). -/
 mutual
 def depthSafeE (d : Nat) : Expr → Bool
-  | .un .neg a => depthSafeE (d + 1) a      -- `PushInt 0` is pending while the operand runs
+  | .un .neg a => depthSafeE (d + 1) a
   | .un .not a => depthSafeE d a
   | .bin .and a b => depthSafeE d a && depthSafeE d b
   | .bin .or a b => depthSafeE d a && depthSafeE d b
@@ -270,7 +281,7 @@ end
 
 /-- `<main>`: `PushNil(#locals)`, the statements (the last one with `is_last`), `Stop` -/
 def compileMain (ss : Stmts) : Option Program :=
-  match compSs [] 0 true ss with
+  match compSs [] 0 0 true ss with
   | some (c, _, n) => some (resolveAt 0 (0, 0) ([.pushNil n] ++ c ++ [.stop]))
   | none => none
 
